@@ -7,13 +7,14 @@
      C18-trie-split-parked   : an insertion splits the node an iterator is parked on (guard_split)
      C18-trie-split-prefix-root : an insertion splits the root node of an open prefix iterator (guard_split_root)
    For the REPAIRED code the safety half of C18 is proved for all interleavings (C18T_no_freed_memory_all_interleavings,
-   no guard needed) and so is the dictionary half (C18T_dictionary_all_interleavings); the "present throughout =>
-   returned, exactly once under removals" clause and prefix iterators are checked on generated interleavings only
-   (correspondence + monitor + ASan). *)
-From Coq Require Import List ZArith.
+   no guard needed), so is the dictionary half (C18T_dictionary_all_interleavings) and the coverage clause
+   (C18T_iterators_all_interleavings and its two corollaries).  Prefix iterators under concurrent modification are
+   checked on generated interleavings only (correspondence + monitor + ASan); a quiescent prefix iteration is
+   C17T_prefix_iteration_all_histories. *)
+From Coq Require Import List ZArith Sorted.
 Require Import Verif.gen.Consts_trie Verif.MapTrieModel Verif.MapTrieSpec Verif.MapTrieGuards Verif.MapTrieRefuted
                Verif.MapTrieProofs Verif.MapTrieView Verif.MapTrieSafe2 Verif.MapTrieSafe4 Verif.MapTrieSafe5 Verif.MapTrieSafe6
-               Verif.MapTrieSafe8.
+               Verif.MapTrieSafe8 Verif.MapTrieOrder Verif.MapTrieCov4 Verif.MapTrieCov5 Verif.MapTrieCov6 Verif.MapTrieCov7.
 Import ListNotations.
 
 (* a removed-but-parked key is still returned by get, and a put on it is lost when the iterator moves on *)
@@ -103,6 +104,34 @@ Theorem C18T_dictionary_all_interleavings : forall hs, hv [] hs ->
                   sdict_outs hs (map fst outs) = fst (spec_run [] (sdict_part hs)).
 Proof. exact trie_c18_dictionary_under_iterators. Qed.
 Print Assumptions C18T_dictionary_all_interleavings.
+
+(* ITERATORS, all interleavings (repaired code, iterators without prefix): every trie_iter_next returns the entry
+   with the LEAST key (in the trie's order klt) greater than the key the iterator returned last - every key at the
+   start -, taken from the dictionary as it is at that moment, with its value; NULL exactly when there is no such
+   entry, and from then on.  (trace_ok / next_ok: MapTrieCov5.v, MapTrieCov6.v; the dictionary operations of the
+   interleaving answer as in C18T_dictionary_all_interleavings.) *)
+Theorem C18T_iterators_all_interleavings : forall hs, hv [] hs ->
+  exists outs t', run FX_ALL trie_init (map sop_op hs) = (outs, Ok t') /\
+                  trace_ok [] (fun _ => PEnd) hs (map fst outs).
+Proof. exact trie_c18_iterators. Qed.
+Print Assumptions C18T_iterators_all_interleavings.
+
+(* the coverage clause follows for every interleaving: a key that is in the map at every step of an iteration (from
+   any moment at which the iterator has not passed it, in particular from its creation, to the NULL that ends it) is
+   returned by that iteration ... *)
+Theorem C18T_present_throughout_is_returned : forall d s hs os, trace_ok d s hs os ->
+  forall h k, k <> [] -> gt (s h) k -> stays h k d hs os -> In k (rkeys h hs os).
+Proof. exact covered. Qed.
+Print Assumptions C18T_present_throughout_is_returned.
+
+(* ... the keys an iteration returns are strictly ascending, so no key is returned twice - with removals only
+   ("exactly once") and also when entries are inserted meanwhile (for the repaired code "at least once" is in fact
+   "exactly once"); and a returned key is in the map at that moment with the returned value (next_ok), so a key that
+   was never present is never returned *)
+Theorem C18T_returned_keys_strictly_ascending : forall d s hs os, trace_ok d s hs os -> forall h,
+  StronglySorted klt (rkeys h hs os) /\ Forall (gt (s h)) (rkeys h hs os).
+Proof. exact returned_ascending. Qed.
+Print Assumptions C18T_returned_keys_strictly_ascending.
 
 (* non-vacuity: the use-after-free witness of the unrepaired code is such an interleaving *)
 Example C18T_all_interleavings_example :
